@@ -163,17 +163,17 @@ func (r *HarnessResult) merge(o *HarnessResult) {
 // ---- scheduling of decision prefixes over workers ----
 
 type sched struct {
-	mu      sync.Mutex
-	cond    *sync.Cond
-	queue   [][]decision
-	idle    int32
-	workers int
-	done    bool
-	paths   int64
-	maxPath int64
+	mu       sync.Mutex
+	cond     *sync.Cond
+	queue    [][]decision
+	idle     int32
+	workers  int
+	done     bool
+	paths    int64
+	maxPath  int64
 	deadline time.Time
 	wallS    int
-	stop    int32
+	stop     int32
 }
 
 func newSched(workers int, maxPaths int) *sched {
